@@ -377,8 +377,9 @@ impl Client {
 			// the reused connection may have been closed earlier: decide on a fresh one
 		}
 		if !self.connect() {
+			// unwinding drops the `Server` guard, which kills the child
 			eprintln!("C07: infrastructure error: cannot connect to the server");
-			std::process::exit(3);
+			panic!("cannot connect to the server");
 		}
 		match self.exchange(target) {
 			Ok(r) => Some(r),
@@ -754,6 +755,8 @@ pub fn run(args: &Args) {
 		"/t/../up.txt", "/t/d/../e.txt", "/t/d/e.txt", "/t/nest/deep", "/t/nest/deep/", "/t/secret.txt", "/t/../secret.txt", "/t//a.txt",
 		"/sub/x.txt", "/dot/y.txt", "/hid/z.txt", "/up.txt", "/d/../e.txt", "/nest/deep", "/sub//dbl.txt", "/sub/dbl.txt", "/%2e%2e/enc.txt",
 		"/pre/fix/a.txt", "/pre/fix/../a.txt", "/pre/fix/../../secret.txt", "/pre/a.txt",
+		"//etc/passwd", "///etc/passwd", "/../../../../../../../../etc/passwd", "/%2e%2e/%2e%2e/etc/passwd", "/..%2f..%2fetc/passwd",
+		"/%2E%2E/", "/%2E%2E/secret.txt", "/assets///etc/passwd", "/t///etc/passwd", "/..\\..\\etc\\passwd",
 	];
 
 	let small = exhaustive(if args.thorough() { SEG_MED } else { SEG_SMALL }, if args.thorough() { 4 } else { 3 });
